@@ -1077,19 +1077,17 @@ class Hdf5Loader:
     def load_tuple(self, h5gr, type_info, subpath):
         """Load a tuple."""
         obj = []  # tuple is immutable: can't append to it
-        # so we need to use a list during loading
-        self.memorize_load(h5gr, obj)
-        # BUG: for recursive tuples, the memorized object is a list instead of a tuple.
-        # but I don't know how to circumvent this.
-        # It's hopefully not relevant for our applications.
+        # so we need to use a list during loading, and can memorize the tuple only afterwards
         length = self.get_attr(h5gr, ATTR_LEN)
         for i in range(length):
             sub_obj = self.load(subpath + str(i))
             obj.append(sub_obj)
         # now convert the list to tuple
         obj = tuple(obj)
-        self.memo_load[h5gr.id] = obj  # overwrite the memo entry to point to the tuple,
-        # not the list
+        # If the tuple is on a reference cycle (through a mutable object, memorized before its
+        # content is loaded), it was already loaded and memorized when the cycle led back here:
+        # like pickle, return that tuple.
+        obj = self.memo_load.setdefault(h5gr.id, obj)
         return obj
 
     dispatch_load[REPR_TUPLE] = (load_tuple, REPR_TUPLE)
